@@ -13,6 +13,9 @@ in-memory transports) whose client manager is a ~15-line subclass of the real `P
     unexpectedly" and breaks.  An exception that escapes the per-message `try` reaches the outer
     handler and `_listen()` is called again — it continues from the cursor.
 
+`deliver(h, k, quiescent=True)` (asyncio) runs the loop only until nothing is runnable: a listener that waits for
+something that can never come is reported ('pending', where it is suspended) instead of blocking the check.
+
 No threads, no tasks left running: `initialize()`'s `start_background_task(self._thread)` is
 dropped.  Everything `_thread` logs through `server.logger` is recorded (`PubSubWorld.log`), which
 is how contained exceptions are observed.
